@@ -83,6 +83,8 @@ def run(prog, rep, tier):
 
     r6 = rep.rule("R15.6", "bulk removers subtract from `accepted` exactly the entries they remove that were not filtered")
     check_bulk_accepted(prog, r6)
+    r7 = rep.rule("R15.7", "table totals and per-peer counters use one definition of `accepted` (not import-filtered, whatever the next hop), and a family-scoped removal forgets only that family's counters")
+    check_state_and_scope(prog, r7)
     r5 = rep.rule("R15.5", "stats.accepted / received deltas in Table::insert and Table::remove agree with the recount under every filtered/replaced combination")
     check_stat_table(prog, r5)
 
@@ -776,3 +778,59 @@ def check_bulk_accepted(prog, r):
             r.fail(ix["name"], "bulk-accepted-count", "an entry with %s is %s by retain but is %s in the number subtracted from route_stats.accepted: peer_stats drifts from the recount"
                    % (", ".join("%s=%s" % (a, v[a]) for a in uni), "kept" if tr[tuple(v[a] for a in uni)] else "removed", "counted" if bad[2] else "not counted"), cfv.loc())
     r.floor("bulk removers with a retain over the path list", n, 3)
+
+
+def check_state_and_scope(prog, r):
+    """(a) Table::state(): num_accepted counts the entries that are not import-filtered.  route_stats.accepted is maintained on that
+    flag alone (R15.5), so a total that also skips paths with an unreachable next hop (e.g. by reusing the best-path iterator)
+    falls below the recount and below the sum of the per-peer counters although no path left the RIB.
+    (b) a removal scoped to one family (Table::drop(addr, family)) may drop the peer's whole counter map only once that map is
+    empty: the peer's other families still hold (stale) paths."""
+    k = prog.one(r"rustybgp_table::Table::state")
+    r.analysed(prog.name(k))
+    flags = set()
+    seen, work = set(), [(k, 2)]
+    while work:
+        kk, d = work.pop()
+        if kk in seen:
+            continue
+        seen.add(kk)
+        for b in prog.with_closures(kk):
+            fv = view(prog, b)
+            for bi, t in fv.calls():
+                nm = t["f"].get("name") or ""
+                if re.search(r"rustybgp_table::RibEntry::is_\w+$", nm):
+                    flags.add(nm.split("::")[-1])
+                elif d > 0 and nm.startswith("rustybgp_table::") and "RibEntry" not in nm:
+                    for hk in prog.by_name.get(nm, []):
+                        work.append((hk, d - 1))
+    if "is_filtered" not in flags:
+        r.fail(prog.name(k), "state-accepted-not-by-filter", "Table::state never consults RibEntry::is_filtered: num_accepted is not the number of non-filtered paths", view(prog, k).loc())
+    elif flags - {"is_filtered"}:
+        r.fail(prog.name(k), "state-accepted-extra-flag:" + "+".join(sorted(flags - {"is_filtered"})), "Table::state restricts a total by %s as well: `accepted` is defined on the import-filter flag alone "
+               "(per-peer counters, recount), so the table total drifts below them when e.g. a next hop becomes unreachable" % ", ".join(sorted(flags - {"is_filtered"})), view(prog, k).loc())
+    else:
+        r.ok("Table::state: num_accepted is decided by is_filtered alone")
+    # (b)
+    n = 0
+    for kk in crate_fns(prog, "rustybgp_table"):
+        ix = prog.ix[kk]
+        if ix["kind"] not in ("fn", "method") or not ix["name"].startswith("rustybgp_table::Table::") or "::tests::" in ix["name"]:
+            continue
+        fv = view(prog, kk)
+        if not any("Family" in fv.f["locals"][l] and "Hash" not in fv.f["locals"][l] for l in range(1, fv.f.get("argc", 0) + 1)):
+            continue
+        rend = Renderer(fv, depth=8, through_names=True)
+        for bi, t in fv.calls(re.compile(r".*HashMap::<K, V, S(, A)?>::remove$")):
+            ga = t["f"].get("ga", "")
+            if "PrefixStats" not in ga or "IpAddr" not in ga.split(",")[0]:
+                continue            # the inner (family -> stats) map, or another map
+            n += 1
+            gs = flat_guards(fv, bi, branches(fv, rend))
+            emptied = any(g[0] == "call" and g[1].endswith("::is_empty") and l == {"true"} for g, l, h in gs)
+            if emptied:
+                r.ok("%s: the peer's counter map is removed only once it is empty" % short(ix["name"]))
+            else:
+                r.fail(ix["name"], "stats-removed-for-all-families", "%s works on one family but removes the peer's counters for every family unconditionally: the paths of the other families "
+                       "stay in the RIB (e.g. kept stale for graceful restart) while their counters are gone, so later withdrawals underflow or panic" % short(ix["name"]), fv.loc(bi))
+    r.floor("family-scoped removals of a peer's counter map", n, 1)
